@@ -234,6 +234,12 @@ func (wr *Writer) tightStruct(rv reflect.Value, si *sinfo) {
 }
 
 func (wr *Writer) tightSlice(rv reflect.Value, si *sinfo) {
+	if rv.Kind() == reflect.Slice && rv.Type().Elem().Kind() == reflect.Uint8 {
+		// A []byte is written as the BytesAs option says, as it is when it
+		// is an element of a []any.
+		wr.appendJSON(rv.Bytes(), 0)
+		return
+	}
 	end := rv.Len()
 	comma := false
 	wr.buf = append(wr.buf, '[')
